@@ -372,6 +372,46 @@ def adts_table_rule(prog, run, R="R8"):
     run.floor(R, n, 500, "ADTS header evaluations")
 
 
+def vp9_sibling_rule(prog, run, R="R9"):
+    """VP9: the first video frame must be a keyframe that carries its configuration.  The crate has two readers of the VP9
+    frame-header byte: the keyframe classifier and the configuration extractor.  They must accept the same header bytes: for all
+    256 values of byte 3 (frame marker valid, the rest of a well-formed short header fixed), `is_vp9_keyframe == Ok(true)` iff
+    `extract_vp9_config != None` (contradiction rule: if they differ, one of them is wrong)."""
+    from .. import minieval as E
+    u = prog.lib
+    kf = [k for k in u.bodies if mir.norm(k) == "codec::vp9::is_vp9_keyframe" and not u.bodies[k]["in_test_cfg"]]
+    ex = [k for k in u.bodies if mir.norm(k) == "codec::vp9::extract_vp9_config" and not u.bodies[k]["in_test_cfg"]]
+    if len(kf) != 1 or len(ex) != 1:
+        run.bad(R, "anchor vp9", "VP9 keyframe classifier / configuration extractor not found")
+        return
+    diff = []
+    n = 0
+    try:
+        for tail in ([0x00, 0x00, 0x10, 0x10, 0x00, 0x00, 0x00, 0x00], [0x00, 0x00, 0x85, 0x01, 0x10, 0x0C, 0x20, 0x20, 0x13, 0x01]):
+            for b3 in range(256):
+                data = [0x49, 0x83, 0x42, b3] + tail
+                res = []
+                for f in (kf[0], ex[0]):
+                    m = E.Machine(u)
+                    m.lenient = True
+                    res.append(m.call_fn(f, [E.Bytes(dict(enumerate(data)), exact=len(data))]))
+                n += 1
+                a1 = isinstance(res[0], E.Adt) and res[0].name == "Result" and res[0].variant == 0 and res[0].fields[0] == 1
+                if not (isinstance(res[1], E.Adt) and res[1].name == "Option"):
+                    raise E.Unsupported("extract_vp9_config result outside the model: %r" % (res[1],))
+                a2 = res[1].variant == 1
+                if a1 != a2:
+                    diff.append((b3, a1, a2))
+    except E.Unsupported as e:
+        run.bad(R, "vp9 keyframe/config agreement", "cannot tabulate the VP9 header readers (fail closed): %s" % e)
+        return
+    run.check(not diff, R, "vp9 keyframe/config agreement", "same acceptance on all 256 frame-header bytes (2 header shapes)",
+              "for VP9 frame-header byte 0x%02x the keyframe classifier says %s but the configuration extractor %s a configuration: a frame of that kind flagged as first keyframe is %s although it is %s" %
+              ((diff[0][0], "keyframe" if diff[0][1] else "not a keyframe", "returns" if diff[0][2] else "refuses", "accepted" if diff[0][2] else "rejected", "not a keyframe" if not diff[0][1] else "a keyframe") if diff else (0, "", "", "", "")),
+              mir.loc_of(u.bodies[ex[0]]))
+    run.floor(R, n, 512, "VP9 header-byte evaluations")
+
+
 KEYFRAME_REFERENCE = {"H264": "codec::h264::is_h264_keyframe", "H265": "codec::h265::is_hevc_keyframe"}
 
 
@@ -455,6 +495,8 @@ def keyframe_classifier_rule(prog, run):
 def check(prog, run):
     run.rule("R8", "ADTS acceptance table: for every value of every header field (others valid) and every short length, the validator's outcome (error kind / returned payload range) is the one the contract prescribes")
     adts_table_rule(prog, run)
+    run.rule("R9", "VP9 siblings: the configuration extractor accepts exactly the frame-header bytes the keyframe classifier calls keyframes (all 256 values)")
+    vp9_sibling_rule(prog, run)
     run.rule("R7", "sibling classifiers: encode_video's keyframe decision equals the codec module's public keyframe classifier as a function of the NAL header byte (all 256 values, H.264 and H.265)")
     keyframe_classifier_rule(prog, run)
     run.rule("R6", "Opus framing (RFC 6716 section 3.2): frame count and VBR flag per TOC code; code 3 reads M = byte1 & 0x3F, v = byte1 >> 7 (evaluated for all 256 values of the extracted expressions)")
